@@ -240,10 +240,15 @@ func pubWorld() *fedi.Net {
 		// constructing renders, so the layout helpers below pub run in both goroutines
 		a["summary"] = "<ul><li>one</li><li><b>two</b></li></ul><blockquote>" + u + "</blockquote>"
 		a["mediaType"] = "text/html"
+		if u == "bob" {
+			// the second author and the audience write Markdown: two conversions in flight at once
+			a["summary"], a["mediaType"] = "* one\n* **two**\n\n> "+u, "text/markdown"
+		}
 		n.Serve(a)
 	}
 	grp := fedi.Actor(h1+"/groups/g", "Group", "g")
 	grp["type"] = "Group"
+	grp["summary"], grp["mediaType"] = "# group\n\n> *quoted* [link](https://l.example/g)", "text/markdown"
 	n.Serve(grp)
 	parent := fedi.Note(h1+"/notes/parent", "parent")
 	n.Serve(parent)
@@ -256,7 +261,16 @@ func pubWorld() *fedi.Net {
 	n.Serve(multi)
 	n.PagedCollection(h1+"/notes/multi/replies", [][]any{{h1 + "/items/1", h1 + "/items/2"}, {h1 + "/items/3", h1 + "/items/4"}})
 	for i := 1; i <= 4; i++ {
-		n.Serve(M{"type": "Note", "id": fmt.Sprintf("%s/items/%d", h1, i), "content": fmt.Sprintf("item %d", i), "name": "i"})
+		// the four markups, so that the converters below pub run concurrently as well (entries of
+		// a page and the page after it are constructed at the same time)
+		it := M{"type": "Note", "id": fmt.Sprintf("%s/items/%d", h1, i), "content": fmt.Sprintf("item %d", i), "name": "i"}
+		switch i {
+		case 2, 4:
+			it["content"], it["mediaType"] = fmt.Sprintf("item **%d** `code`", i), "text/markdown"
+		case 3:
+			it["content"], it["mediaType"] = fmt.Sprintf("item %d\n=> https://l.example/%d link\n> quote", i, i), "text/gemini"
+		}
+		n.Serve(it)
 	}
 	// a post with two embedded replies: one genuine, one that answers another post
 	threaded := fedi.Note(h1+"/notes/threaded", "threaded")
